@@ -22,6 +22,11 @@ T = {
          "Six character/keyword alphabets (tags+attributes, comments, DOCTYPE, RCDATA/RAWTEXT/script/PLAINTEXT with 8 start-state x last-start-tag configurations, character references in data/RCDATA/three attribute contexts, CDATA allowed/not) are explored breadth-first from the empty prefix and from seed prefixes up to the stated depth, modulo state equivalence. Every reachable (state x next letter) combination inside the bound is executed on the implementation and compared with the reference.",
          "ref/tokenizer.py (about 900 lines, my transcription of the June-2020 WHATWG tokenizer; named references from html.entities.html5, C1 table from the cp1252 codec) is trusted; characters outside the alphabets are assumed to behave like the letter of the same class",
          "6/C02"),
+ "C03": ("model_checking",
+         "explicit-state BFS over markup-token words (state key = suspended parser state) with invariants checked on every execution in 5 builder configurations x str/bytes; plus flat exhaustive byte soup (all byte strings <=4 over 19 bytes x 3 encoding hints) and an exhaustive pump family (every letter and ordered pair of open tags repeated past the recursion limit x 14 closers x 5 prefixes)",
+         "Every explored input is parsed by the real parser with etree, etree fullTree and dom builders, namespacing on and off, scripting off and on, in document mode and for all 28 fragment containers; the oracle is: no exception of any type, a 20 s watchdog, and the document skeleton read by direct traversal. Nesting depth is attacked by construction (n = 1100 quick, 5000 thorough) rather than by luck.",
+         "termination is bounded by the watchdog; inputs outside the alphabets / above the depths are not covered; a noframes element after a frameset is accepted as a third child of html (the standard puts it there)",
+         "6/C03"),
  "C04": ("model_checking",
          "explicit-state BFS over markup-token words, differential oracle across six builder configurations (etree root form, etree fullTree, dom x namespaceHTMLElements on/off); state key = suspended dom-parser state (insertion mode, closed-subtree skeleton of live nodes, stacks, pointers, flags, pending table text, tokenizer snapshot) + consistency of the etree builder's shadow child lists; one-step bisimulation check of the key",
          "For every word of seven themed alphabets (formatting/adoption, tables, select, prologue/head/frameset, foreign content, blocks/lists, text modes) and their union, up to the stated depth modulo state equivalence, in document mode and in fragment mode for 10 containers, the real parser is run with all six builder configurations and the canonical trees (read by direct traversal) must be equal; the etree root form must equal the html subtree of the full tree.",
